@@ -341,3 +341,59 @@ def r4_kernel_table(ck, P):
             ck.ok(R, 'filters[%d] is %s' % (v, name))
         else:
             ck.violation(R, 'filters', 'row %d' % v, 'filters[] is indexed by the kernel enum but row %d %s' % (v, 'is missing' if v >= len(t) else 'describes kernel %s / function %s' % (t[v]['kernel'], t[v]['func'])), u.name)
+
+
+def r_axis_consistency(ck, P, rid):
+    """the x phase/width header fields are only ever combined with each other, likewise the y fields"""
+    R = ck.rule(rid, 'in every reader of the separable-convolution block, products and shifts never combine a value derived from the x header fields (width, x phase bits) with one derived from the y header fields (height, y phase bits): the y kernel row is selected by the y phase, the x kernel row by the x phase', floor=6)
+    AX = {0: 'x', 2: 'x', 1: 'y', 3: 'y'}
+    NAME = {0: 'width', 1: 'height', 2: 'x_phase_bits', 3: 'y_phase_bits'}
+    n = 0
+    for f in P.functions():
+        sy = Sym(P, f)
+        hdr = {}
+        for x in f.insts():
+            if x.op == 'load':
+                k = sy.header_index(x.a[0])
+                if k is not None and k in AX:
+                    hdr[x.i] = k
+        if not any(k in (2, 3) for k in hdr.values()):
+            continue
+        if f.name == 'pixman_image_set_filter':
+            continue
+        memo = {}
+
+        def H(o, depth=0):
+            if o[0] != 'v':
+                return frozenset()
+            if o[1] in memo:
+                return memo[o[1]]
+            memo[o[1]] = frozenset()          # cycle cut (phi)
+            x = f.by_id[o[1]]
+            if x.op == 'load':
+                r = frozenset([hdr[x.i]]) if x.i in hdr else frozenset()
+            elif x.op in ('call', 'alloca', 'getelementptr'):
+                r = frozenset()
+            else:
+                r = frozenset()
+                for a in x.a:
+                    r |= H(a, depth + 1)
+            memo[o[1]] = r
+            return r
+
+        ck.saw(f)
+        for x in f.insts():
+            if x.op not in ('mul', 'shl', 'lshr', 'ashr'):
+                continue
+            h1, h2 = H(x.a[0]), H(x.a[1])
+            if not h1 or not h2:
+                continue
+            n += 1
+            axes = {AX[k] for k in h1 | h2}
+            what = '%s of [%s] and [%s]' % (x.op, ','.join(NAME[k] for k in sorted(h1)), ','.join(NAME[k] for k in sorted(h2)))
+            if len(axes) == 1:
+                ck.ok(R, '%s: %s' % (f.name, what))
+            else:
+                ck.violation(R, f.name, what, '%s combines x-axis and y-axis header fields in one %s (%s): a kernel row or extent of one axis is selected with the phase or size of the other' % (f.name, x.op, what), x.loc())
+    if n == 0:
+        ck.incomplete(R, 'no product of header-derived values found in any reader of the parameter block')
